@@ -107,7 +107,47 @@ func AnalyseStructCopy(fn *ssa.Function, st *types.Named, dstIsResult bool) (map
 			return
 		}
 		fa, ok := st.Addr.(*ssa.FieldAddr)
-		if !ok || !isDst(fa.X) {
+		if !ok {
+			return
+		}
+		// nested value struct rebuilt in place: dst.F.G = … (a literal for F, or F's clone inlined)
+		if outer, isNested := fa.X.(*ssa.FieldAddr); isNested && isDst(outer.X) {
+			ofr, ok1 := AsField(outer)
+			ifr, ok2 := AsField(fa)
+			if ok1 && ok2 {
+				if fc := out[ofr.Field]; fc != nil {
+					fc.Assigned = true
+					fc.Pos = st.Pos()
+					fc.Detail = "rebuilt field by field"
+					fromSameNested := false
+					for w := range Slice(st.Val, func(c *ssa.Call) bool { return true }) {
+						if fr2, ok := LoadOfField(w); ok && fr2.Field == ifr.Field {
+							fromSameNested = true
+						}
+						if fa2, ok := w.(*ssa.FieldAddr); ok {
+							if fr2, ok := AsField(fa2); ok && fr2.Field == ifr.Field {
+								fromSameNested = true
+							}
+						}
+					}
+					fc.FromSame = fc.FromSame || fromSameNested
+					if !PointerFree(st.Val.Type()) {
+						if isFresh(st.Val) {
+							if !fc.Alias {
+								fc.Fresh = true
+							}
+						} else {
+							fc.Alias = true
+							fc.Fresh = false
+						}
+					} else if fc.RefType && !fc.Alias {
+						fc.Fresh = true // only value sub-fields so far: nothing shared
+					}
+				}
+			}
+			return
+		}
+		if !isDst(fa.X) {
 			return
 		}
 		fr, ok := AsField(fa)
@@ -204,6 +244,31 @@ func isFresh(v ssa.Value) bool {
 		for _, e := range x.Edges {
 			if !isFresh(e) {
 				return false
+			}
+		}
+		return true
+	case *ssa.UnOp:
+		// value of a local struct variable built field by field: fresh when every
+		// reference-holding field stored into it is fresh
+		a, ok := x.X.(*ssa.Alloc)
+		if !ok || x.Op != token.MUL || a.Referrers() == nil {
+			return false
+		}
+		for _, r := range *a.Referrers() {
+			switch u := r.(type) {
+			case *ssa.Store:
+				if u.Addr == ssa.Value(a) && !PointerFree(u.Val.Type()) && !isFresh(u.Val) {
+					return false
+				}
+			case *ssa.FieldAddr:
+				if u.Referrers() == nil {
+					continue
+				}
+				for _, rr := range *u.Referrers() {
+					if st, ok := rr.(*ssa.Store); ok && st.Addr == ssa.Value(u) && !PointerFree(st.Val.Type()) && !isFresh(st.Val) {
+						return false
+					}
+				}
 			}
 		}
 		return true
